@@ -377,9 +377,11 @@ class ProgGen:
         elif kind == 'local_no_region':
             main.insert(0, ['label', '.early'])
         elif kind == 'dup_label':
-            labs = [st for st in main if st[0] == 'label']
+            labs = [i for i, st in enumerate(main) if st[0] in ('label', 'const')]
             if labs:
-                main.insert(pos, list(rng.choice(labs)))
+                i = rng.choice(labs)
+                # half of the time right behind the original: same scope, same value
+                main.insert(i + 1 if rng.random() < 0.5 else pos, list(main[i]))
         elif kind == 'neg_fill':
             main.insert(pos, ['fill', num(-2), num(9)])
         elif kind == 'align0':
@@ -480,3 +482,49 @@ class ProgGen:
 
 def gen_program(rng, prof, tier):
     return ProgGen(rng, prof, tier).generate()
+
+
+def gen_placement(rng, tier):
+    """C04 scenarios: a handful of byte-producing lines (sizes 0..3) placed through absolute origins, zone-relative
+    origins and zone switches into a small, crowded address range, in arbitrary source order; overlapping zones."""
+    cfg = dict(addr_bits=16, endian='big', origin=rng.choice([0, 0x18]), page=1, terminator=0, embedded=False,
+               zones=[['ram', 0x20, 0x2f], ['rom', 0x28, 0x37]], consts=[], data=[], syms=[], cli=[])
+    if rng.random() < 0.3:
+        cfg['data'] = [['pdata', rng.randint(0x1c, 0x38), 0xAA, rng.choice([1, 2, 4])]]
+    if rng.random() < 0.2:
+        cfg['zones'].append(['vec', 0x34, 0x37])
+    zones = [z[0] for z in cfg['zones']]
+    stmts = []
+    n = rng.randint(2, 5)
+    mk = 1
+    for _ in range(n):
+        r = rng.random()
+        if r < 0.45:
+            stmts.append(['org', num(rng.randint(0x18, 0x3a)), None])
+        elif r < 0.7:
+            z = rng.choice(zones)
+            zs, ze = [x for x in cfg['zones'] if x[0] == z][0][1:]
+            stmts.append(['org', num(rng.randint(0, ze - zs)), z])
+        elif r < 0.9:
+            stmts.append(['memzone', rng.choice(zones + ['GLOBAL'])])
+        size = rng.choice([0, 0, 1, 1, 2, 3])
+        k = rng.random()
+        if size == 0:
+            stmts.append(rng.choice([['fill', num(0), num(mk)], ['zero', num(0)], ['zerountil', num(0)]]))
+        elif k < 0.5:
+            stmts.append(['fill', num(size), num(0x10 * mk + size)])
+        elif k < 0.8:
+            stmts.append(['data', 1, [num(0x10 * mk + i) for i in range(size)]])
+        else:
+            stmts.append(['instr', 'nop', []] if size == 1 else (['instr', 'ldi', ['a', num(mk)]] if size == 2 else ['instr', 'jmp', [num(0x100 + mk)]]))
+        if rng.random() < 0.15:
+            stmts.insert(len(stmts) - 1, ['mute'])
+            stmts.append(['unmute'])
+        mk += 1
+    files = [{'name': 'main.asm', 'dir': 'src', 'stmts': stmts}]
+    if rng.random() < 0.25 and len(stmts) > 3:
+        cut = rng.randint(1, len(stmts) - 1)
+        files = [{'name': 'main.asm', 'dir': 'src', 'stmts': stmts[:cut] + [['include', 1, 'inc1.asm']]},
+                 {'name': 'inc1.asm', 'dir': 'src', 'stmts': stmts[cut:]}]
+    return {'cfg': cfg, 'files': files, 'include_dirs': [], 'extra_files': [], 'fault': 'placement',
+            'opts': {'start': 0x18, 'end': 0x3f, 'fill': 0xEE}}
